@@ -8,7 +8,12 @@ From Onet Require Import Base.Corr Node.Instance Node.Obs Node.VerifyProofs Node
   Corr.C04 Node.C04CheckProofs Node.Pipeline Node.PipelineProofs Node.PipelineC04Proofs
   Node.Channel Node.ChannelProofs.
 
-(* The property, at the level of TreeNodeInstance.aggregate, for every node
+(* POSITIVE THEOREMS: UNDER ROUND-SEPARATED ARRIVAL FROM CHILDREN (each round =
+   one message from every child, rounds one after the other, every message
+   passes the C02 sender check).  What the pinned code does outside these
+   hypotheses is at the end of this file (three known findings).
+
+   The property, at the level of TreeNodeInstance.aggregate, for every node
    (any number n >= 1 of children with ids [cs]), every registration table,
    every number of rounds and every arrival order inside each round: if the
    arrival sequence of an aggregated type is a concatenation of rounds -- each
@@ -106,8 +111,49 @@ Theorem c04_instances_independent : forall f c i l s1 s2,
 Proof. exact instances_independent. Qed.
 Print Assumptions c04_instances_independent.
 
-(* The hypothesis is not decoration.  Without round separation completion by
-   count pairs a fast child's two messages ... *)
+(* ---- OUTSIDE THE HYPOTHESES: three known findings ---------------------------
+   The theorems above are stated under round-separated arrival from children that
+   pass the sender check.  The property text is not: "all arrival orders and
+   interleavings of the children's messages ... several consecutive rounds",
+   "exactly those messages, one per child", "rounds ... never mix".  On inputs
+   outside the hypotheses the pinned code deviates from the text; each witness
+   below is the model's own run (agree = true) judged by the checker's literal
+   reading of the text (Corr/C04.v text_step). *)
+
+(* (i) children pipeline rounds: a batch with two messages of one child, none of
+   the other (aggregate() completes by COUNT) *)
+Theorem c04_rounds_mix_refuted :
+  let c := wit_case two_children [wit_msg 1 1 11; wit_msg 1 1 12; wit_msg 2 2 21; wit_msg 2 2 22] in
+  agree c = true /\ in_scope c = false /\ check c = [4] /\
+  k_obs c = [D 0 2 true [E (OPos 1) 11; E (OPos 1) 12]; D 0 2 true [E (OPos 2) 21; E (OPos 2) 22]].
+Proof. exact rounds_mix_refuted. Qed.
+Print Assumptions c04_rounds_mix_refuted.
+
+(* (ii) an authenticated tree member that is not a child takes a child's place *)
+Theorem c04_nonchild_refuted :
+  let c := wit_case wit_tree [wit_msg 1 1 11; wit_msg 4 4 41; wit_msg 2 2 21; wit_msg 3 3 31] in
+  agree c = true /\ in_scope c = false /\ check c = [4] /\
+  k_obs c = [D 0 2 true [E (OPos 1) 11; E (OPos 4) 41; E (OPos 2) 21]].
+Proof. exact nonchild_refuted. Qed.
+Print Assumptions c04_nonchild_refuted.
+
+(* (iii) one element that fails the sender check poisons the batch: it is dropped
+   whole (C02 holds) and the round never completes although every child sent *)
+Theorem c04_poisoned_batch_refuted :
+  let c := wit_case two_children [wit_msg 2 1 11; wit_msg 2 2 21; wit_msg 1 1 12] in
+  agree c = true /\ in_scope c = false /\ check c = [1] /\ k_obs c = [].
+Proof. exact poisoned_refuted. Qed.
+Print Assumptions c04_poisoned_batch_refuted.
+
+(* the literal reading is satisfiable: keeping pipelined rounds apart passes *)
+Example c04_text_reading_satisfiable :
+  check (C two_children [0] [wit_msg 1 1 11; wit_msg 1 1 12; wit_msg 2 2 21; wit_msg 2 2 22]
+           [D 0 2 true [E (OPos 1) 11; E (OPos 2) 21]; D 0 2 true [E (OPos 2) 22; E (OPos 1) 12]] FAlive) = [].
+Proof. exact text_reading_satisfiable. Qed.
+Print Assumptions c04_text_reading_satisfiable.
+
+(* the same two behaviours at the level of aggregate(): completion by count
+   pairs a fast child's two messages ... *)
 Example c04_unseparated_example :
   outs_of (agg_run root2 regs_agg [] [cm 1 2 11; cm 1 2 12; cm 2 2 21; cm 2 2 22]) =
     [AWait; ABatch [cm 1 2 11; cm 1 2 12]; AWait; ABatch [cm 2 2 21; cm 2 2 22]].
@@ -259,8 +305,8 @@ Print Assumptions c04_all_batches_received.
 (* the only deliveries ever refused are non-aggregated ones to a full channel *)
 Theorem c04_only_singles_refused : forall cap ds acts st d,
   crun false cap (cinit ds) acts = Some st -> In d (c_dropped st) ->
-  is_chan d = true /\ (d_agg d = false \/ false = true).
-Proof. exact (only_singles_refused false). Qed.
+  is_chan d = true /\ d_agg d = false.
+Proof. exact (fun cap ds acts st d => only_singles_refused_blocking false cap ds acts st d eq_refl). Qed.
 Print Assumptions c04_only_singles_refused.
 
 (* a waiting send is completed by the next read of that channel *)
